@@ -8,28 +8,28 @@ import Sqljson.Model.Lex
 
 * `ok a`   — `Parse` returns the AST `a` and no error,
 * `err`    — `Parse` returns an error (`lexer.errors` is non-empty),
-* `panic`  — `Parse` panics (a constructor of package `ast` panics, or a nil node is
-             dereferenced by `LinkNodes`).
+* `panic`  — `Parse` panics.  The only panic sites the grammar actions can still reach are
+             `ast.NewInteger` / `ast.NewNumeric` inside `ast.NewUnaryOrNumber` (which re-parses
+             the negated literal text); `Props/C04` proves they are never taken.
 
 The parser is hand written (recursive descent with precedence climbing), one decision per
 non-simple state of the LALR(1) automaton goyacc generates from `grammar.y` (state numbers in the
-comments are those of `goyacc -v`).  Two features of the generated parser are reproduced because
-they decide between `err` and `panic`:
+comments are those of `goyacc -v`).  Two features of the generated parser are reproduced:
 
 1. **Semantic actions run eagerly.**  A reduction that does not depend on the look-ahead (goyacc's
-   default reductions) is performed before the next token is examined, so
-   `9223372036854775808 )` panics in `NewInteger` before the stray `)` is seen.
+   default reductions) is performed before the next token is examined.
 2. **`stopTok` is `-1`, and so is the parser's "no look-ahead" marker.**  `Lex` returns `-1` both at
    the end of the input and after a lexing error; the parser treats it as `$end` for *one* decision
    and then calls `Lex` again, which continues after the offending text.  So the token stream after
-   a lexing error is still parsed (and its actions may panic) although the result is discarded.
-   `peek` below never caches a `stop` token, which is exactly that behaviour; every function
-   performs exactly one `peek` per automaton state it stands for.
+   a lexing error is still parsed although the result is discarded.  `peek` below never caches a
+   `stop` token, which is exactly that behaviour; every function performs exactly one `peek` per
+   automaton state it stands for.
 
-A parser action that records an error (`.decimal()` with more than two arguments, a regular
-expression that does not compile, bad flags) does not stop the parse either; it leaves a nil
-`ast.Node` (`.decimal`) or a typed-nil `*ast.RegexNode` on the value stack.  These are carried as
-`none` / `nilRx` because `LinkNodes` dereferences them.
+A parser action that records an error (an integer / numeric literal out of range, a level of `.**`
+out of range, `.decimal()` with more than two arguments, a regular expression that does not
+compile, bad flags) does not stop the parse either; it puts a placeholder node on the value stack
+(`parser.go`: `newInteger`, `newNumeric`, `newRegex`, `anyLevel`) and the parse goes on, its result
+being discarded at the end because `lexer.errors` is non-empty.
 -/
 
 namespace Sqljson
@@ -44,27 +44,6 @@ inductive ParseOutcome
 deriving Repr, Inhabited
 
 /-! ## `strconv` entry points used by the constructors -/
-
-/-- `strconv.underscoreOK` -/
-def underscoreOK (s : List Char) : Bool :=
-  let s := match s with
-    | '-' :: r => r
-    | '+' :: r => r
-    | r => r
-  let (hex, saw0, body) := match s with
-    | '0' :: c :: r =>
-      let lc := Lex.lowerBit c
-      if lc = 'b' || lc = 'o' || lc = 'x' then (decide (lc = 'x'), '0', r) else (false, '^', s)
-    | _ => (false, '^', s)
-  go hex body saw0
-where
-  go (hex : Bool) : List Char → Char → Bool
-    | [], saw => saw ≠ '_'
-    | c :: cs, saw =>
-      if Lex.isDecimal c || (hex && 'a' ≤ Lex.lowerBit c && Lex.lowerBit c ≤ 'f') then go hex cs '0'
-      else if c = '_' then (if saw ≠ '0' then false else go hex cs '_')
-      else if saw = '_' then false
-      else go hex cs '!'
 
 /-- digit value in `ParseUint` (`0-9`, `a-z`, `A-Z`), `none` for any other byte -/
 def digitVal36 (c : Char) : Option Nat :=
@@ -81,8 +60,8 @@ def uintLoop (base : Nat) : List Char → Nat → Option Nat
       | none => none
       | some d => if d ≥ base then none else uintLoop base cs (n * base + d)
 
-/-- `strconv.ParseInt(s, 0, 64)`; `none` = any error (syntax or range) -/
-def parseInt0 (s : List Char) : Option Int :=
+/-- `strconv.ParseInt(s, 0, bits)`; `none` = any error (syntax or range) -/
+def parseIntBase0 (bits : Nat) (s : List Char) : Option Int :=
   let (neg, body) := match s with
     | '+' :: r => (false, r)
     | '-' :: r => (true, r)
@@ -104,37 +83,27 @@ def parseInt0 (s : List Char) : Option Int :=
     match uintLoop base digs 0 with
     | none => none
     | some n =>
-      if body.contains '_' && !underscoreOK body then none
-      else if neg then (if n > 2 ^ 63 then none else some (-(n : Int)))
-      else (if n ≥ 2 ^ 63 then none else some (n : Int))
+      if body.contains '_' && !Decimal.underscoreOK body then none
+      else if neg then (if n > 2 ^ (bits - 1) then none else some (-(n : Int)))
+      else (if n ≥ 2 ^ (bits - 1) then none else some (n : Int))
 
-/-- `strconv.ParseFloat(s, 64)` with the value required to be finite (`NewNumeric` panics on
-    a range error; `json.Marshal` would reject NaN); `none` = error.  Underscores: Go accepts
-    them when `underscoreOK`, and then ignores them. -/
+/-- `strconv.ParseInt(s, 0, 64)` -/
+def parseInt0 (s : List Char) : Option Int := parseIntBase0 64 s
+
+/-- `strconv.ParseFloat(s, 64)` succeeding (a range error — ±Inf — is an error); the value is then
+    finite, so `json.Marshal` in `NewNumeric` cannot fail either.  `none` = error. -/
 def parseFloatFinite (s : List Char) : Option F64 :=
-  let s' := if s.contains '_' then (if underscoreOK s then some (s.filter (· ≠ '_')) else none) else some s
-  match s' with
-  | none => none
-  | some t =>
-    match Decimal.parseFloat t with
-    | .ok f => if (Decimal.jsonFloat f).isSome then some f else none
-    | .error _ => none
-
-/-- `strconv.Atoi` with the error dropped, as the `any_level` action does -/
-def atoiIgnoringError (s : List Char) : Nat :=
-  match Decimal.takeDigits s 0 0 with
-  | (v, n, []) => if n = 0 then 0 else if v ≥ 2 ^ 63 then 2 ^ 63 - 1 else v
-  | _ => 0
+  match Decimal.parseFloat s with
+  | .ok f => if (Decimal.jsonFloat f).isSome then some f else none
+  | .error _ => none
 
 /-! ## `ast` constructors -/
 
-/-- value of an `expr` / `predicate` nonterminal: the node, the literal text when it is a number
-    (`numberNode.literal`, re-parsed by `NewUnaryOrNumber`), and whether the Go value is the
-    typed-nil `*RegexNode` left behind by a failed `NewRegex` (then `node` is a stand-in). -/
+/-- value of an `expr` / `predicate` nonterminal: the node and, when it is a number, its literal
+    text (`numberNode.literal`, re-parsed by `NewUnaryOrNumber`). -/
 structure EV where
   node : Node
   lit : List Char := []
-  nilRx : Bool := false
 deriving Inhabited
 
 /-- `ast.NewAny` on a 64-bit platform; `none` = `-1` (`last`) -/
@@ -184,16 +153,10 @@ def appendEnd : Node → Option Node → Node
   | .arrayIndex s none, t => .arrayIndex s t
   | .arrayIndex s (some m), t => .arrayIndex s (some (appendEnd m t))
 
-/-- the chain `LinkNodes` builds from `nodes[1:]`: `none` = a nil node is followed by another
-    node, so `end.setNext` is called on a nil interface (panic) -/
-def chainOf : List (Option Node) → Option (Option Node)
-  | [] => some none
-  | [none] => some none
-  | none :: _ :: _ => none
-  | some n :: rest =>
-    match chainOf rest with
-    | none => none
-    | some t => some (some (n.setNext t))
+/-- the chain `LinkNodes` builds from `nodes[1:]` (the accessors are fresh nodes without `next`) -/
+def chainOf : List Node → Option Node
+  | [] => none
+  | n :: rest => some (n.setNext (chainOf rest))
 
 /-! ## Validation (`ast.New` / `validateNode`) -/
 
@@ -288,40 +251,64 @@ def expect (t : Tok) : P Unit := do
   let (k, _) ← peek o
   if k = t then consume else syn
 
-/-! ## Constructors that may panic -/
+/-! ## Constructors
 
-/-- `ast.NewInteger` -/
-def newInteger (lit : List Char) : P EV :=
+`astNewInteger` / `astNewNumeric` are the panicking constructors of package `ast`; the grammar
+actions reach them only through `NewUnaryOrNumber`.  `newInteger` / `newNumeric` / `mkRegex` /
+`anyLevelOf` are the guarded helpers of `parser.go`, which record an error and return a
+placeholder instead. -/
+
+/-- `ast.NewInteger`: panics if `strconv.ParseInt(lit, 0, 64)` fails -/
+def astNewInteger (lit : List Char) : P EV :=
   match parseInt0 lit with
   | some v => pure { node := .integer v none, lit := lit }
   | none => panic
 
-/-- `ast.NewNumeric` -/
-def newNumeric (lit : List Char) : P EV :=
+/-- `ast.NewNumeric`: panics if `strconv.ParseFloat(lit, 64)` fails -/
+def astNewNumeric (lit : List Char) : P EV :=
   match parseFloatFinite lit with
   | some f => pure { node := .numeric f none, lit := lit }
   | none => panic
+
+/-- `parser.newInteger`: an out-of-range literal is a parse error; the placeholder is `null` -/
+def newInteger (lit : List Char) : P EV :=
+  match parseInt0 lit with
+  | some v => pure { node := .integer v none, lit := lit }
+  | none => do
+    recordError
+    pure { node := .const .null none }
+
+/-- `parser.newNumeric`: an out-of-range literal is a parse error; the placeholder is `null` -/
+def newNumeric (lit : List Char) : P EV :=
+  match parseFloatFinite lit with
+  | some f => pure { node := .numeric f none, lit := lit }
+  | none => do
+    recordError
+    pure { node := .const .null none }
+
+/-- the literal of the negated number: `strings.CutPrefix(literal, "-")`, else `"-" + literal` -/
+def negLit : List Char → List Char
+  | '-' :: r => r
+  | l => '-' :: l
 
 /-- `ast.NewUnaryOrNumber` (`op` is `plus` or `minus`) -/
 def newUnaryOrNumber (op : UnOp) (v : EV) : P EV :=
   if v.node.next.isNone then
     match v.node with
-    | .numeric _ _ => if op = .plus then pure v else newNumeric ('-' :: v.lit)
-    | .integer _ _ => if op = .plus then pure v else newInteger ('-' :: v.lit)
+    | .numeric _ _ => if op = .plus then pure v else astNewNumeric (negLit v.lit)
+    | .integer _ _ => if op = .plus then pure v else astNewInteger (negLit v.lit)
     | _ => pure { node := .unary op (some v.node) none }
   else pure { node := .unary op (some v.node) none }
 
-/-- `ast.LinkNodes(head :: ops)` -/
-def linkNodes (head : EV) (ops : List (Option Node)) : P EV :=
+/-- `ast.LinkNodes(head :: ops)`: `ops` are appended at the end of the chain `head` already has.
+    (No node is nil any more, so nothing here can panic.) -/
+def linkNodes (head : EV) (ops : List Node) : EV :=
   match ops with
-  | [] => pure head
-  | _ =>
-    if head.nilRx then panic
-    else match chainOf ops with
-      | none => panic
-      | some t => pure { head with node := appendEnd head.node t }
+  | [] => head
+  | _ => { head with node := appendEnd head.node (chainOf ops) }
 
-/-- the two `like_regex` actions: `NewRegex`, and `pathlex.Error` when it fails -/
+/-- `parser.newRegex`: `ast.NewRegex`; when the flags or the pattern are invalid the error is
+    recorded and the operand itself is the placeholder -/
 def mkRegex (operand : EV) (pat fl : List Char) : P EV :=
   let good := match regexFlags fl with
     | some b => if o.regexAccepts pat b then some b else none
@@ -330,7 +317,15 @@ def mkRegex (operand : EV) (pat fl : List Char) : P EV :=
   | some b => pure { node := .regex operand.node pat b none }
   | none => do
     recordError
-    pure { node := .regex operand.node pat 0 none, nilRx := true }
+    pure operand
+
+/-- `parser.anyLevel`: `strconv.ParseInt(lit, 0, 32)`; out of range is a parse error, level 0 -/
+def anyLevelOf (lit : List Char) : P Nat :=
+  match parseIntBase0 32 lit with
+  | some v => pure v.toNat
+  | none => do
+    recordError
+    pure 0
 
 def binary (op : BinOp) (l r : EV) : EV := { node := .binary op (some l.node) (some r.node) none }
 def unary (op : UnOp) (x : EV) : EV := { node := .unary op (some x.node) none }
@@ -395,7 +390,8 @@ def anyLevel : P (Option Nat) := do
   let (t, txt) ← peek o
   if t = .int then do
     consume
-    pure (some (atoiIgnoringError txt))
+    let n ← anyLevelOf txt
+    pure (some n)
   else if t = .last then do
     consume
     pure none
@@ -475,14 +471,14 @@ mutual
         accessorLoop f h []
 
   /-- state 8: `accessor_expr . accessor_op | expr: accessor_expr .` (`ops` in source order) -/
-  def accessorLoop : Nat → EV → List (Option Node) → P EV
+  def accessorLoop : Nat → EV → List Node → P EV
     | 0, _, _ => outOfFuel
     | f + 1, head, ops => do
       let (t, _) ← peek o
       if isAccessorStart t then do
         let op ← accessorOp f t
         accessorLoop f head (ops ++ [op])
-      else linkNodes head ops
+      else pure (linkNodes head ops)
 
   /-- after `'('`: states 9 (`ctx = paren`) and 51 (`ctx = parenE`) up to the matching `')'`
       and what may follow it (states 113, 114, 139) -/
@@ -682,9 +678,8 @@ mutual
         | .expr _ _ => syn
       else pure r
 
-  /-- `accessor_op`; `t` (examined, not consumed) is `.`, `[` or `?`.  `none` is the nil node the
-      `.decimal()` action leaves behind when it reports an error. -/
-  def accessorOp : Nat → Tok → P (Option Node)
+  /-- `accessor_op`; `t` (examined, not consumed) is `.`, `[` or `?` -/
+  def accessorOp : Nat → Tok → P Node
     | 0, _ => outOfFuel
     | f + 1, t => do
       consume
@@ -698,23 +693,23 @@ mutual
           if t2 ≠ .rparen then syn
           else do
             consume
-            pure (some (.unary .filter (some v.node) none))
+            pure (.unary .filter (some v.node) none)
       else if t = .lbrack then do
         let (t2, txt2) ← peek o                     -- state 47
         if t2 = .star then do
           consume
           expect o .rbrack                          -- state 109
-          pure (some (.const .anyArray none))
+          pure (.const .anyArray none)
         else if t2 = .stop then syn
         else do
           let subs ← indexList f (t2, txt2) []
-          pure (some (.arrayIndex subs none))
+          pure (.arrayIndex subs none)
       else do
         -- state 44
         let (k, txt) ← peek o
         if k = .star then do
           consume
-          pure (some (.const .anyKey none))
+          pure (.const .anyKey none)
         else if k = .any then do
           consume
           let (t2, _) ← peek o                      -- state 79
@@ -724,17 +719,17 @@ mutual
             let (t3, _) ← peek o                    -- state 160
             if t3 = .rbrace then do
               consume
-              pure (some (newAny a a))
+              pure (newAny a a)
             else if t3 = .to then do
               consume
               let b ← anyLevel o                     -- state 177
               expect o .rbrace                      -- state 179
-              pure (some (newAny a b))
+              pure (newAny a b)
             else syn
-          else pure (some (newAny (some 0) none))
+          else pure (newAny (some 0) none)
         else if isPlainKeyName k then do
           consume
-          pure (some (.key txt none))
+          pure (.key txt none)
         else
           match methodOf k with
           | some m => do
@@ -743,8 +738,8 @@ mutual
             if t2 = .lparen then do
               consume                               -- state 70
               expect o .rparen                      -- state 122
-              pure (some (.method m none))
-            else pure (some (.key txt none))
+              pure (.method m none)
+            else pure (.key txt none)
           | none =>
             if k = .decimal then do
               consume
@@ -754,21 +749,21 @@ mutual
                 let args ← csvList f                -- state 123
                 expect o .rparen                    -- state 144
                 match args with
-                | [] => pure (some (.binary .decimal none none none))
-                | [a] => pure (some (.binary .decimal (some a) none none))
-                | [a, b] => pure (some (.binary .decimal (some a) (some b) none))
+                | [] => pure (.binary .decimal none none none)
+                | [a] => pure (.binary .decimal (some a) none none)
+                | [a, b] => pure (.binary .decimal (some a) (some b) none)
                 | _ => do
                   recordError
-                  pure none
-              else pure (some (.key txt none))
+                  pure (.binary .decimal none none none)
+              else pure (.key txt none)
             else if k = .date then do
               consume
               let (t2, _) ← peek o                  -- state 72
               if t2 = .lparen then do
                 consume
                 expect o .rparen                    -- state 124
-                pure (some (.unary .date none none))
-              else pure (some (.key txt none))
+                pure (.unary .date none none)
+              else pure (.key txt none)
             else if k = .datetime then do
               consume
               let (t2, _) ← peek o                  -- state 73
@@ -778,11 +773,11 @@ mutual
                 if t3 = .string then do
                   consume
                   expect o .rparen                  -- state 151
-                  pure (some (.unary .datetime (some (.str tpl none)) none))
+                  pure (.unary .datetime (some (.str tpl none)) none)
                 else do
                   expect o .rparen                  -- state 151
-                  pure (some (.unary .datetime none none))
-              else pure (some (.key txt none))
+                  pure (.unary .datetime none none)
+              else pure (.key txt none)
             else
               match precisionOp k with
               | some op => do
@@ -795,11 +790,11 @@ mutual
                     consume
                     let p ← newInteger digs         -- state 156 (no look-ahead)
                     expect o .rparen                -- states 154, 157–159
-                    pure (some (.unary op (some p.node) none))
+                    pure (.unary op (some p.node) none)
                   else do
                     expect o .rparen
-                    pure (some (.unary op none none))
-                else pure (some (.key txt none))
+                    pure (.unary op none none)
+                else pure (.key txt none)
               | none => syn
 
   /-- `index_list` after `'['`; `t` is the token examined in state 47 / 133 -/
